@@ -378,6 +378,11 @@ func parent(t *testing.T, c Check) {
 	_ = os.MkdirAll(filepath.Join(root, "evidence"), 0o755)
 	repDir := filepath.Join(root, "replays", c.ID)
 	_ = os.MkdirAll(repDir, 0o755)
+	if old, _ := filepath.Glob(filepath.Join(repDir, tier+"-*.json")); len(old) > 0 {
+		for _, f := range old {
+			_ = os.Remove(f)
+		}
+	}
 
 	type res struct {
 		sh      *Shard
